@@ -590,14 +590,16 @@ class RawAlgorithmsMixIn:
 
         else:
 
-            tmp = numpy.zeros_like(xbar_data)
+            # (complex when y, ybar or r are: a real adjoint buffer takes the real part at the end)
+            dtype = numpy.result_type(xbar_data.dtype, ybar_data.dtype, y_data.dtype, numpy.asarray(r).dtype)
+            tmp = numpy.zeros(xbar_data.shape, dtype=dtype)
 
-            cls._truediv(y_data, x_data, tmp)
+            cls._truediv(y_data.astype(dtype), x_data.astype(dtype), tmp)
             tmp[...] = numpy.nan_to_num(tmp)
-            cls._mul(ybar_data, tmp, tmp)
+            cls._mul(ybar_data.astype(dtype), tmp, tmp)
             tmp *= r
 
-            xbar_data += tmp
+            numpy.add(xbar_data, tmp, out=xbar_data, casting='unsafe')
 
         # print 'xbar_data=',xbar_data
 
@@ -1275,14 +1277,14 @@ class RawAlgorithmsMixIn:
                     for c in range(d+1):
                         zb, x, y = zbar_data[c,p], x_data[d-c,p], y_data[d-c,p]
                         if y_ndim == 1:
-                            xbar_data[d,p] += numpy.multiply.outer(zb, y)
-                            ybar_data[d,p] += numpy.tensordot(x, zb, axes=(lead, lead))
+                            numpy.add(xbar_data[d,p], numpy.multiply.outer(zb, y), out=xbar_data[d,p], casting='unsafe')
+                            numpy.add(ybar_data[d,p], numpy.tensordot(x, zb, axes=(lead, lead)), out=ybar_data[d,p], casting='unsafe')
                         else:
                             ya = list(range(y_ndim-2)) + [y_ndim-1]
                             za = list(range(x_ndim-1, x_ndim-1+y_ndim-1))
-                            xbar_data[d,p] += numpy.tensordot(zb, y, axes=(za, ya))
+                            numpy.add(xbar_data[d,p], numpy.tensordot(zb, y, axes=(za, ya)), out=xbar_data[d,p], casting='unsafe')
                             tmp = numpy.tensordot(x, zb, axes=(lead, lead))
-                            ybar_data[d,p] += numpy.moveaxis(tmp, 0, -2)
+                            numpy.add(ybar_data[d,p], numpy.moveaxis(tmp, 0, -2), out=ybar_data[d,p], casting='unsafe')
 
         else:
             xbar_data += cls._dot(zbar_data, cls._transpose(y_data), out = xbar_data.copy())
@@ -1349,7 +1351,8 @@ class RawAlgorithmsMixIn:
         for d in range(D):
             for p in range(P):
                 for c in range(d+1):
-                    z_data[d,p,...] += numpy.outer(x_data[c,p,...], y_data[d-c,p,...])
+                    # (as in _dot: a real adjoint buffer takes the real part of a complex contribution)
+                    numpy.add(z_data[d,p,...], numpy.outer(x_data[c,p,...], y_data[d-c,p,...]), out=z_data[d,p,...], casting='unsafe')
 
         return out
 
